@@ -69,4 +69,11 @@ TEXT["C03"] = {
     "note": COMMON_NOTE + "Equality of distributions is tested on a finite set of characters (all singletons, all pairs for <= 10 symptoms, 24 pseudo-random) — a proof of the oracle's laws, a test of each instance.",
     "technique": "Lean 4 theorems (ring identities by grind, decide over regenerated tables) + exact-rational distribution oracle correspondence",
 }
+TEXT["C06"] = {
+    "level": "Kernel-checked: abstract soundness of loop folding for any deterministic per-iteration transformer that commutes with index relabelling (period_repeats / fold_sound) and the exact accounting of "
+             "warm-up, whole periods and leftover iterations. Correspondence: folded vs unfolded detector error models and coordinates, the folded model against the Lean forward-injection distribution oracle, "
+             "compressed vs directly simulated reference samples, and the tracker's loop folding through its three users vs the flattened circuit — over a (transient, period, repetitions) grid.",
+    "note": COMMON_NOTE + "The equivariance hypothesis is not discharged for the concrete C++ tracker (partial); it is what the unroll comparison tests.",
+    "technique": "Lean 4 theorems (abstract refinement of loop folding) + oracle / equality correspondence over a transient x period x repetitions grid",
+}
 NOT_CLAIMED = {}
